@@ -2,7 +2,8 @@
   Model of the attribution of an accepted TLS connection to a client block (tls.c: tlsservernew; dtls.c: dtlsservernew has the
   same structure): candidates are the client blocks of the transport whose host list contains the peer's address, in configuration
   order; the first of them fixes the TLS context the handshake is made under; a peer whose certificate chain does not verify is
-  nobody; else the connection belongs to the first candidate of that context whose certificate conditions the peer meets.
+  nobody; else the connection belongs to the first candidate of that context - not a TLS-PSK block - whose certificate conditions the
+  peer meets. A peer offering a PSK identity is attributed to the first candidate of that context holding that identity.
   Whether a block lists the address and whether it accepts the certificate are computed elsewhere (Rsp.Model.Addr, Rsp.Model.Cert).
 -/
 namespace Rsp.TlsAttr
@@ -12,6 +13,7 @@ structure Blk where
   tls : Nat              -- which TLS context block the client block refers to
   addrMatch : Bool       -- its host list contains the peer's address
   certOk : Bool          -- `verifyconfcert(cert, conf, NULL, NULL)`
+  psk : Option (List UInt8 × List UInt8) := none   -- PSKidentity and PSKkey of the block, if it is a TLS-PSK block
 deriving Repr, DecidableEq
 
 /-- the blocks `find_clconf` yields, in order -/
@@ -21,6 +23,20 @@ def candidates (bs : List Blk) : List Blk := bs.filter (·.addrMatch)
 def attributeTo (trusted : Bool) (bs : List Blk) : Option Blk :=
   match (candidates bs).head? with
   | none => none
-  | some first => if !trusted then none else (candidates bs).find? fun c => c.tls = first.tls && c.certOk
+  | some first => if !trusted then none else (candidates bs).find? fun c => c.tls = first.tls && c.psk.isNone && c.certOk
+
+/-- `find_all_clconf`: what `psk_find_session_cb` may choose from - the blocks listing the peer's address that use the TLS context of
+    the first of them and have a PSK identity and key -/
+def pskCandidates (bs : List Blk) : List Blk :=
+  match (candidates bs).head? with
+  | none => []
+  | some first => (candidates bs).filter fun c => c.tls = first.tls && c.psk.isSome
+
+/-- a peer offering the PSK identity `id`, holding `key`: the first candidate of that identity is the one the handshake is made
+    with - it completes only under that block's key - and the connection then belongs to that block -/
+def attributePsk (id key : List UInt8) (bs : List Blk) : Option Blk :=
+  match (pskCandidates bs).find? fun c => c.psk.map (·.1) == some id with
+  | none => none
+  | some c => if c.psk.map (·.2) == some key then some c else none
 
 end Rsp.TlsAttr
